@@ -41,7 +41,37 @@ impl Drop for Busy {
     }
 }
 
+/// Scheduling point of a plain-memory access: a relaxed read-modify-write of
+/// a loom atomic that belongs to the address.  Two threads' accesses to the
+/// same address become dependent operations, so the exploration tries both
+/// orders of them wherever no happens-before edge fixes the order (on code
+/// whose accesses are all ordered it adds no execution); being relaxed it
+/// creates no happens-before edge itself.
+fn touch(addr: usize) {
+    if addr == 0 || BUSY.with(|b| b.get()) {
+        return;
+    }
+    let t = {
+        let _b = Busy::enter();
+        with(|e| {
+            if !e.active {
+                return None;
+            }
+            Some(
+                e.touches
+                    .entry(addr)
+                    .or_insert_with(|| Rc::new(loom::sync::atomic::AtomicUsize::new(0)))
+                    .clone(),
+            )
+        })
+    };
+    if let Some(t) = t {
+        t.fetch_add(1, std::sync::atomic::Ordering::Relaxed);
+    }
+}
+
 fn access(addr: usize, write: bool, what: &str) {
+    touch(addr);
     if addr == 0 || !crate::ctl::tracking() {
         return;
     }
@@ -268,13 +298,31 @@ pub(crate) fn shim_access(addr: usize) {
     }
 }
 
+/// The calling thread obtains the raw pointer of the plain cell at `addr`
+/// (`UnsafeCell::get()`), which in kanal happens exactly where the cell is
+/// read or written.  Besides the liveness test this is (a) a scheduling point
+/// at which the exploration orders this access both ways with every other
+/// thread's access to the same cell (`touch`) and (b) a tracked *read* of the
+/// cell: whatever the access really is, it
+/// conflicts with every write, so an unordered write elsewhere is a race even
+/// when the `rd`/`wr` hook that tells the kind is missing or has been left
+/// behind at another place.
+pub(crate) fn cell_access(addr: usize) {
+    shim_access(addr);
+    if BUSY.with(|b| b.get()) {
+        return;
+    }
+    // (scheduling point inside; the tracked read is a no-op without tracking)
+    access(addr, false, "access");
+}
+
 /// Heap memory `[ptr, ptr+size)` is being freed (harness allocator hook).
 pub fn forget_range(ptr: usize, size: usize) {
     if BUSY.with(|b| b.get()) {
         return;
     }
     crate::ctl::try_with(|e| {
-        if !e.active || (e.cells.is_empty() && e.regions.is_empty()) {
+        if !e.active || (e.cells.is_empty() && e.regions.is_empty() && e.touches.is_empty()) {
             return;
         }
         let _b = Busy::enter();
@@ -282,6 +330,10 @@ pub fn forget_range(ptr: usize, size: usize) {
         let keys: Vec<usize> = e.cells.range(ptr..end).map(|(k, _)| *k).collect();
         for k in keys {
             e.cells.remove(&k);
+        }
+        let keys: Vec<usize> = e.touches.range(ptr..end).map(|(k, _)| *k).collect();
+        for k in keys {
+            e.touches.remove(&k);
         }
         let keys: Vec<usize> = e.regions.range(ptr..end).map(|(k, _)| *k).collect();
         for k in keys {
